@@ -378,7 +378,9 @@ let monitor (opsf : string) (obsf : string) (outf : string) =
        let line = String.trim (input_line ic) in
        if line = "" || line.[0] = '#' then ()
        else begin
-         let obs = (try input_line ib with End_of_file -> "EOF") in
+         (* the observation file ends early when the implementation did not return from a call (the caller reports
+            that separately): nothing further can be judged *)
+         let obs = input_line ib in
          lastcmd := line; incr stepn;
          let toks = String.split_on_char ' ' line in
          let otoks = String.split_on_char ' ' obs in
